@@ -58,6 +58,19 @@ Section Spec.
   Definition patch_keys_distinct (c : dcls) (p : items) : Prop :=
     NoDup (map (key_of c) (keys p)).
 
+  (* the value held before, or a default when the key is absent *)
+  Definition old_or (o : option value) (dflt : value) : value :=
+    match o with Some x => x | None => dflt end.
+
+  Definition ok_of {A} (r : res A) : option A := match r with Ok a => Some a | Err _ => None end.
+
+  (* new objects: each patch dict merged into an empty dict *)
+  Fixpoint each_new (merge : value -> value -> res value) (l : list value) : res (list value) :=
+    match l with
+    | [] => Ok []
+    | n :: l' => do d <- merge n (VDict DPlain []); do r <- each_new merge l'; Ok (d :: r)
+    end.
+
   (* index-by-index merge of a list of objects [orig] with a patch list:
      position i of the patch: None (or past the end) keeps the item, a dict
      carrying __delete__ drops it, any other dict is merged into it; a missing
@@ -108,6 +121,53 @@ Section Spec.
                               carries_delete v = false /\ lookup d1 k = Some sub /\ silent v sub ks')
         | _, _ => False
         end
+    end.
+
+  (* shape compatibility of a patch with d1 (outside it Python raises and the
+     text says nothing): where the patch holds a dict, d1 holds a dict or
+     nothing; where it holds a list of objects, d1 holds a list (or nothing)
+     whose items are compatible with the dicts patched onto them; objects to
+     delete exist.  [comp] is the relation one level down. *)
+  Section Compat.
+    Variable comp : value -> value -> Prop.
+
+    Fixpoint compat_items (lv lo : list value) {struct lv} : Prop :=
+      match lv with
+      | [] => True
+      | n :: lv' =>
+          (n = VNone \/ carries_delete n = true \/ comp n (none_to_empty (hd VNone lo)))
+          /\ compat_items lv' (tl lo)
+      end.
+
+    Definition compat_entry (d1 : value) (k : str) (v : value) : Prop :=
+      match v with
+      | VDict _ _ =>
+          if carries_delete v then lookup d1 k <> None
+          else comp v (match lookup d1 k with Some sub => sub | None => VDict DPlain [] end)
+      | VList lv =>
+          if object_list v then
+            exists lo, match lookup d1 k with Some x => x | None => VList [] end = VList lo /\
+                       compat_items lv lo
+          else True
+      | _ => True
+      end.
+
+    Fixpoint compat_entries (d1 : value) (p : items) {struct p} : Prop :=
+      match p with
+      | [] => True
+      | (k, v) :: p' => compat_entry d1 k v /\ compat_entries d1 p'
+      end.
+  End Compat.
+
+  Fixpoint compatible (d2 d1 : value) {struct d2} : Prop :=
+    match d2 with
+    | VDict c2 p =>
+        carries_delete d2 = true \/
+        match d1 with
+        | VDict c1 m => wf_items c1 m /\ patch_keys_distinct c1 p /\ compat_entries compatible d1 p
+        | _ => p = []
+        end
+    | _ => False
     end.
 
   (* ---------------------------------------------------------- find* *)
